@@ -480,10 +480,80 @@ func Eq(a, b *Term) *Term {
 		}
 		return Eq(x, BVC(x.S.W, b.C))
 	}
+	// injective uninterpreted functions: f(x1..xn) = f(y1..yn) <=> xi = yi; different symbols of
+	// the same width have disjoint ranges (both are axiomatised per application as well)
+	if a.Op == "uf" && b.Op == "uf" && injectiveUF[a.Name] && injectiveUF[b.Name] {
+		if a.Name != b.Name {
+			return tFalse
+		}
+		cs := make([]*Term, len(a.Args))
+		for i := range a.Args {
+			cs[i] = Eq(a.Args[i], b.Args[i])
+		}
+		return And(cs...)
+	}
+	if a.Op == "uf" && b.Op == "uf" && a.Name != b.Name && taggedUF[a.Name] && taggedUF[b.Name] {
+		return tFalse
+	}
+	// wide concatenations are compared piecewise
+	if a.S.K == KBV && a.S.W > 64 && (a.Op == "concat" || b.Op == "concat") {
+		pa, pb := flattenConcat(a), flattenConcat(b)
+		if len(pa) > 1 || len(pb) > 1 {
+			var cs []*Term
+			i, j := 0, 0
+			var ra, rb *Term // remaining low parts of the current pieces
+			for i < len(pa) || ra != nil {
+				if ra == nil {
+					ra = pa[i]
+					i++
+				}
+				if rb == nil {
+					if j >= len(pb) {
+						break
+					}
+					rb = pb[j]
+					j++
+				}
+				wa, wb := ra.S.W, rb.S.W
+				switch {
+				case wa == wb:
+					cs = append(cs, Eq(ra, rb))
+					ra, rb = nil, nil
+				case wa > wb:
+					cs = append(cs, Eq(Extract(ra, wa-1, wa-wb), rb))
+					ra, rb = Extract(ra, wa-wb-1, 0), nil
+				default:
+					cs = append(cs, Eq(ra, Extract(rb, wb-1, wb-wa)))
+					ra, rb = nil, Extract(rb, wb-wa-1, 0)
+				}
+			}
+			return And(cs...)
+		}
+	}
 	if a.ID > b.ID {
 		a, b = b, a
 	}
 	return TS.mk(&Term{Op: "=", S: SBool, Args: []*Term{a, b}})
+}
+
+var injectiveUF = map[string]bool{}
+var taggedUF = map[string]bool{}
+
+// flattenConcat lists the pieces of a (nested) concatenation from the most significant end.
+func flattenConcat(t *Term) []*Term {
+	var out []*Term
+	var stack []*Term
+	stack = append(stack, t)
+	for len(stack) > 0 {
+		x := stack[len(stack)-1]
+		stack = stack[:len(stack)-1]
+		if x.Op == "concat" {
+			stack = append(stack, x.Args[1], x.Args[0])
+			continue
+		}
+		out = append(out, x)
+	}
+	return out
 }
 
 func bigOf(t *Term) *big.Int {
